@@ -805,7 +805,7 @@ theorem io_statInv {cfg : Cfg} {s : State} (h : StatInv cfg s) (a : Bool) (w : L
 
 /-- TIMING_MESSAGE: the table is emptied, the report is handled inside the statistics context (nothing is counted),
     the tick is marked -/
-theorem sendTiming_inv {cfg : Cfg} {s : State} (h : StatInv cfg s) : StatInv cfg (sendTiming cfg s) := by
+theorem sendTiming_statInv {cfg : Cfg} {s : State} (h : StatInv cfg s) : StatInv cfg (sendTiming cfg s) := by
   unfold sendTiming
   dsimp only
   obtain ⟨e, ha⟩ := fwdTop_any cfg ({ s with counts := [], inTraffic := true } : State)
@@ -826,7 +826,7 @@ theorem sendTiming_inv {cfg : Cfg} {s : State} (h : StatInv cfg s) : StatInv cfg
 
 /-- MESSAGE_TRAFFIC: the whole report (and its DEBUG log line) is handled inside the statistics context, then the
     table is emptied, the tick is marked -/
-theorem sendTraffic_inv {cfg : Cfg} {s : State} (h : StatInv cfg s) : StatInv cfg (sendTraffic cfg s) := by
+theorem sendTraffic_statInv {cfg : Cfg} {s : State} (h : StatInv cfg s) : StatInv cfg (sendTraffic cfg s) := by
   unfold sendTraffic
   dsimp only
   have h1 := (logAt_macc cfg 10 ({ s with inTraffic := true } : State)).any
@@ -844,19 +844,19 @@ theorem sendTraffic_inv {cfg : Cfg} {s : State} (h : StatInv cfg s) : StatInv cf
     simp only [tallyOn_stats _ hm, ite_self]
     exact h.counts
 
-theorem ticks_inv {cfg : Cfg} {s : State} (h : StatInv cfg s) : StatInv cfg (ticks cfg s) := by
+theorem ticks_statInv {cfg : Cfg} {s : State} (h : StatInv cfg s) : StatInv cfg (ticks cfg s) := by
   unfold ticks
   dsimp only
   have h1 : StatInv cfg (if (cfg.timing && decide (s.now - s.tTiming > 900)) = true then
       { sendTiming cfg s with tTiming := s.now } else s) := by
     split
-    · exact statInv_same (sendTiming_inv h) rfl rfl rfl rfl
+    · exact statInv_same (sendTiming_statInv h) rfl rfl rfl rfl
     · exact h
   generalize (if (cfg.timing && decide (s.now - s.tTiming > 900)) = true then
       { sendTiming cfg s with tTiming := s.now } else s) = s1 at h1 ⊢
   have h2 : StatInv cfg (if s1.now - s1.tTraffic > 1000 then sendTraffic cfg s1 else s1) := by
     split
-    · exact sendTraffic_inv h1
+    · exact sendTraffic_statInv h1
     · exact h1
   generalize (if s1.now - s1.tTraffic > 1000 then sendTraffic cfg s1 else s1) = s2 at h2 ⊢
   split
@@ -864,15 +864,15 @@ theorem ticks_inv {cfg : Cfg} {s : State} (h : StatInv cfg s) : StatInv cfg (tic
     rw [he]; exact statInv_same (statInv_acc h2 ha) rfl rfl rfl rfl
   · exact h2
 
-theorem step_inv {cfg : Cfg} {s : State} (h : StatInv cfg s) (r : Round) : StatInv cfg (step cfg s r) := by
+theorem step_statInv {cfg : Cfg} {s : State} (h : StatInv cfg s) (r : Round) : StatInv cfg (step cfg s r) := by
   unfold step
   split
   · exact h
   · dsimp only
     have h0 : StatInv cfg (envStep s r) := by unfold envStep; exact statInv_same h rfl rfl rfl rfl
-    exact ticks_inv (io_statInv h0 _ _ _)
+    exact ticks_statInv (io_statInv h0 _ _ _)
 
-theorem init_inv (cfg : Cfg) : StatInv cfg (init cfg) := by
+theorem init_statInv (cfg : Cfg) : StatInv cfg (init cfg) := by
   unfold init
   refine statInv_acc ?_ (logAt_macc cfg 20 _)
   refine ⟨rfl, rfl, ?_⟩
@@ -883,8 +883,8 @@ theorem run_statInv (cfg : Cfg) (rs : List Round) : StatInv cfg (run cfg rs) := 
   have : ∀ (rs : List Round) (s : State), StatInv cfg s → StatInv cfg (rs.foldl (step cfg) s) := by
     intro rs; induction rs with
     | nil => intro s h; exact h
-    | cons r rs ih => intro s h; exact ih _ (step_inv h r)
-  exact this rs _ (init_inv cfg)
+    | cons r rs ih => intro s h; exact ih _ (step_statInv h r)
+  exact this rs _ (init_statInv cfg)
 
 /-- the history only grows: whatever one more round does, the marks made so far stay where they are -/
 def Grows (s s' : State) : Prop := ∃ e, s'.hist = e ++ s.hist
